@@ -1,0 +1,13 @@
+//go:build verif
+
+package verifhook
+
+import (
+	"github.com/linkedin/Burrow/core/internal/helpers"
+)
+
+// The validators and the Kafka version parser the Configure methods use (oracle values for the model).
+func ValidateHostList(hosts []string) bool         { return helpers.ValidateHostList(hosts) }
+func ValidateHostPort(h string, blankOK bool) bool { return helpers.ValidateHostPort(h, blankOK) }
+func ValidateZookeeperPath(p string) bool          { return helpers.ValidateZookeeperPath(p) }
+func KafkaVersionOK(v string) bool                 { return helpers.VerifKafkaVersionOK(v) }
